@@ -88,6 +88,8 @@ pub fn execute_program(
         0,
         stack.as_ptr() as u64 + stack.len() as u64,
     ];
+    // Base address for LD_ABS / LD_IND: null for an empty packet, as compiled code receives it (and as R1 below).
+    let mem_base: u64 = if mem.is_empty() { 0 } else { mem.as_ptr() as u64 };
     if !mbuff.is_empty() {
         reg[1] = mbuff.as_ptr() as u64;
     } else if !mem.is_empty() {
@@ -158,42 +160,42 @@ pub fn execute_program(
             // Since this pointer is constant, and since we already know it (mem), do not
             // bother re-fetching it, just use mem already.
             ebpf::LD_ABS_B   => reg[0] = unsafe {
-                let x = (mem.as_ptr() as u64 + (insn.imm as u32) as u64) as *const u8;
+                let x = (mem_base + (insn.imm as u32) as u64) as *const u8;
                 check_mem_load(x as u64, 1, insn_ptr)?;
                 x.read_unaligned() as u64
             },
             ebpf::LD_ABS_H   => reg[0] = unsafe {
-                let x = (mem.as_ptr() as u64 + (insn.imm as u32) as u64) as *const u16;
+                let x = (mem_base + (insn.imm as u32) as u64) as *const u16;
                 check_mem_load(x as u64, 2, insn_ptr)?;
                 x.read_unaligned() as u64
             },
             ebpf::LD_ABS_W   => reg[0] = unsafe {
-                let x = (mem.as_ptr() as u64 + (insn.imm as u32) as u64) as *const u32;
+                let x = (mem_base + (insn.imm as u32) as u64) as *const u32;
                 check_mem_load(x as u64, 4, insn_ptr)?;
                 x.read_unaligned() as u64
             },
             ebpf::LD_ABS_DW  => reg[0] = unsafe {
-                let x = (mem.as_ptr() as u64 + (insn.imm as u32) as u64) as *const u64;
+                let x = (mem_base + (insn.imm as u32) as u64) as *const u64;
                 check_mem_load(x as u64, 8, insn_ptr)?;
                 x.read_unaligned()
             },
             ebpf::LD_IND_B   => reg[0] = unsafe {
-                let x = (mem.as_ptr() as u64).wrapping_add(reg[_src]).wrapping_add((insn.imm as u32) as u64) as *const u8;
+                let x = mem_base.wrapping_add(reg[_src]).wrapping_add((insn.imm as u32) as u64) as *const u8;
                 check_mem_load(x as u64, 1, insn_ptr)?;
                 x.read_unaligned() as u64
             },
             ebpf::LD_IND_H   => reg[0] = unsafe {
-                let x = (mem.as_ptr() as u64).wrapping_add(reg[_src]).wrapping_add((insn.imm as u32) as u64) as *const u16;
+                let x = mem_base.wrapping_add(reg[_src]).wrapping_add((insn.imm as u32) as u64) as *const u16;
                 check_mem_load(x as u64, 2, insn_ptr)?;
                 x.read_unaligned() as u64
             },
             ebpf::LD_IND_W   => reg[0] = unsafe {
-                let x = (mem.as_ptr() as u64).wrapping_add(reg[_src]).wrapping_add((insn.imm as u32) as u64) as *const u32;
+                let x = mem_base.wrapping_add(reg[_src]).wrapping_add((insn.imm as u32) as u64) as *const u32;
                 check_mem_load(x as u64, 4, insn_ptr)?;
                 x.read_unaligned() as u64
             },
             ebpf::LD_IND_DW  => reg[0] = unsafe {
-                let x = (mem.as_ptr() as u64).wrapping_add(reg[_src]).wrapping_add((insn.imm as u32) as u64) as *const u64;
+                let x = mem_base.wrapping_add(reg[_src]).wrapping_add((insn.imm as u32) as u64) as *const u64;
                 check_mem_load(x as u64, 8, insn_ptr)?;
                 x.read_unaligned()
             },
